@@ -756,6 +756,36 @@ func (c *Check) computeBaseRange() {
 		c.undecided("C13-R4", "range", p.relFile(f.Pos()), "computeBase has no uint64 address parameter")
 		return
 	}
+	// the ELF part (range test and segment search) moved into a helper that is handed the
+	// address: decide the rule there
+	for depth := 0; depth < 2; depth++ {
+		h := fph.Call.StaticCallee()
+		if h == nil || h.Name() == "findProgramHeader" || !fnInModule(h) || len(h.Blocks) == 0 {
+			break
+		}
+		idx := -1
+		for i, a := range fph.Call.Args {
+			if a == ssa.Value(addrPar) {
+				idx = i
+			}
+		}
+		if idx < 0 || idx >= len(h.Params) {
+			break
+		}
+		var inner *ssa.Call
+		for _, es := range effectiveSites(h, func(ins ssa.Instruction) bool {
+			call, ok := ins.(*ssa.Call)
+			return ok && call.Call.StaticCallee() != nil && call.Call.StaticCallee().Name() == "findProgramHeader"
+		}, 2) {
+			if call, ok := es.at.(*ssa.Call); ok {
+				inner = call
+			}
+		}
+		if inner == nil {
+			break
+		}
+		f, addrPar, fph = h, h.Params[idx], inner
+	}
 	for _, side := range []struct {
 		field string
 		below bool
